@@ -338,3 +338,162 @@ def to_src(node, ctx='alt'):
     if t == 'alt':
         return '|'.join(to_src(x) for x in node[1])
     raise ValueError(t)
+
+
+# ---- parser: pattern source -> AST (the supported syntax only; raises ValueError otherwise) ----
+def parse(src):
+    pos = [0]
+    ngroups = [0]
+
+    def peek():
+        return src[pos[0]] if pos[0] < len(src) else None
+
+    def eat(ch=None):
+        c = peek()
+        if c is None or (ch is not None and c != ch):
+            raise ValueError("unexpected %r at %d in %r" % (c, pos[0], src))
+        pos[0] += 1
+        return c
+
+    def disjunction():
+        alts = [alternative()]
+        while peek() == "|":
+            eat("|")
+            alts.append(alternative())
+        return alts[0] if len(alts) == 1 else ("alt", alts)
+
+    def alternative():
+        terms = []
+        while peek() is not None and peek() not in "|)":
+            terms.append(term())
+        if not terms:
+            return ("empty",)
+        return terms[0] if len(terms) == 1 else ("cat", terms)
+
+    def term():
+        c = peek()
+        if c == "^":
+            eat()
+            return ("bol",)
+        if c == "$":
+            eat()
+            return ("eol",)
+        if c == "(":
+            eat()
+            if src.startswith("?:", pos[0]):
+                pos[0] += 2
+                body = disjunction()
+                eat(")")
+                node = ("ncgroup", body) if body[0] in ("alt", "cat", "empty") else body
+                if body[0] == "empty":
+                    node = ("empty",)
+            elif src.startswith("?=", pos[0]) or src.startswith("?!", pos[0]):
+                positive = src[pos[0] + 1] == "="
+                pos[0] += 2
+                body = disjunction()
+                eat(")")
+                return ("look", True, positive, body)
+            elif src.startswith("?<=", pos[0]) or src.startswith("?<!", pos[0]):
+                positive = src[pos[0] + 2] == "="
+                pos[0] += 3
+                body = disjunction()
+                eat(")")
+                return ("look", False, positive, body)
+            else:
+                ngroups[0] += 1
+                n = ngroups[0]
+                body = disjunction()
+                eat(")")
+                node = ("group", n, body)
+            return quantified(node)
+        if c == "\\":
+            eat()
+            e = eat()
+            if e == "b":
+                return ("wb",)
+            if e == "B":
+                return ("nwb",)
+            if e in "dDwWsS":
+                return quantified(("esc", e))
+            if e.isdigit() and e != "0":
+                return quantified(("backref", int(e)))
+            if e == "n":
+                return quantified(("char", "\n"))
+            if e == "t":
+                return quantified(("char", "\t"))
+            return quantified(("char", e))
+        if c == ".":
+            eat()
+            return quantified(("dot",))
+        if c == "[":
+            return quantified(char_class())
+        if c in "*+?{":
+            raise ValueError("nothing to repeat at %d in %r" % (pos[0], src))
+        eat()
+        return quantified(("char", c))
+
+    def char_class():
+        eat("[")
+        neg = False
+        if peek() == "^":
+            eat()
+            neg = True
+        items = []
+
+        def atom():
+            c = eat()
+            if c == "\\":
+                e = eat()
+                if e in "dDwWsS":
+                    return ("esc", e)
+                return {"n": "\n", "t": "\t", "b": "\b"}.get(e, e)
+            return c
+        while peek() != "]":
+            a = atom()
+            if peek() == "-" and pos[0] + 1 < len(src) and src[pos[0] + 1] != "]" and not isinstance(a, tuple):
+                eat("-")
+                b = atom()
+                if isinstance(b, tuple):
+                    raise ValueError("class range to a shorthand escape")
+                items.append((a, b))
+            elif isinstance(a, tuple):
+                items.append(a)
+            else:
+                items.append((a, a))
+        eat("]")
+        return ("class", neg, items)
+
+    def quantified(node):
+        c = peek()
+        mn = mx = None
+        if c == "*":
+            eat()
+            mn, mx = 0, None
+        elif c == "+":
+            eat()
+            mn, mx = 1, None
+        elif c == "?":
+            eat()
+            mn, mx = 0, 1
+        elif c == "{":
+            j = src.find("}", pos[0])
+            body = src[pos[0] + 1:j] if j > 0 else ""
+            import re as _re
+            m = _re.fullmatch(r"(\d+)(,(\d*))?", body)
+            if not m:
+                raise ValueError("literal brace at %d in %r" % (pos[0], src))
+            pos[0] = j + 1
+            mn = int(m.group(1))
+            mx = mn if m.group(2) is None else (int(m.group(3)) if m.group(3) else None)
+        else:
+            return node
+        greedy = True
+        if peek() == "?":
+            eat()
+            greedy = False
+        return ("quant", mn, mx, greedy, node)
+
+    ast = disjunction()
+    if pos[0] != len(src):
+        raise ValueError("unbalanced ) at %d in %r" % (pos[0], src))
+    return ast
